@@ -159,9 +159,10 @@ def plan(tier, seed):
     p = []
     if tier == 'quick':
         for lang in LANGS:
-            for d in (1, 2, 3, 4, 6):
-                p.append({'lang': lang, 'max_depth': d, 'n': 6, 'chunk': 3})
-            p.append({'lang': lang, 'switches': list(SWITCHES), 'n': 6, 'chunk': 3, 'tag': 'allsw'})
+            for d in (1, 2, 3, 4):
+                p.append({'lang': lang, 'max_depth': d, 'n': 4, 'chunk': 4})
+            p.append({'lang': lang, 'n': 16, 'chunk': 4})              # the default configuration
+            p.append({'lang': lang, 'switches': list(SWITCHES), 'n': 8, 'chunk': 4, 'tag': 'allsw'})
             p.append({'lang': lang, 'n': 6, 'chunk': 3, 'tag': 'tp4',
                       'extra_argv': ['--max-type-params', '4'],
                       'cfg': {'limits': {'max_type_params': 4}}})
